@@ -394,3 +394,21 @@ def integrate_keeping_dt_last_done(sim, tmax, exact_finish_time):
         sim.integrate(tmax, exact_finish_time=exact_finish_time)
     finally:
         setf_ptr(sim, "heartbeat", old)
+
+
+def drop_flagged(s):
+    """S view without particles that are flagged for deferred removal (y == NaN in a tree simulation): they are logically gone and the
+    next tree update - or a restore - drops them"""
+    if F_PARTICLES not in s:
+        return s
+    b = s[F_PARTICLES]
+    oy = PART.m["y"][0]
+    recs = [b[i:i + PART.size] for i in range(0, len(b), PART.size)]
+    keep = [r for r in recs if struct.unpack_from("<d", r, oy)[0] == struct.unpack_from("<d", r, oy)[0]]
+    if len(keep) == len(recs):
+        return s
+    s = dict(s)
+    s[F_PARTICLES] = b"".join(keep)
+    if 4 in s:
+        s[4] = struct.pack("<I", len(keep))
+    return s
